@@ -46,6 +46,9 @@ func runEmbedding(pre, stmts []string) (o embOutcome, internal string) {
 	}
 	var last run.Res
 	for _, st := range stmts {
+		// a statement marked with a leading "!" is expected to fail; the session carries on
+		tolerate := strings.HasPrefix(st, "!")
+		st = strings.TrimPrefix(st, "!")
 		last = s.Run(st, false, 2000000)
 		switch {
 		case last.Panic != "":
@@ -56,6 +59,9 @@ func runEmbedding(pre, stmts []string) (o embOutcome, internal string) {
 			return o, "step limit"
 		case last.CompileErr != nil:
 			return o, "refused"
+		}
+		if tolerate && last.Panic == "" {
+			continue
 		}
 		o.out += last.Written()
 		if last.Err != "" {
